@@ -24,7 +24,24 @@ fn l1item(world: &'static str, quick: u64, thorough: u64) -> PlanItem {
 
 pub fn plan(prop: &str) -> Vec<PlanItem> {
     match prop {
+        "C02" | "C03" => vec![l1item("mutex", 400_000, 12_000_000)],
+        "C04" => vec![PlanItem { layer: "L1", world: "mutex", quick: 300_000, thorough: 8_000_000, over: vec![("fair", 1)] }],
         "C05" | "C06" => vec![l1item("semaphore", 400_000, 12_000_000)],
+        "C01" | "C17" | "C18" => vec![
+            l1item("mutex", 150_000, 4_000_000),
+            l1item("semaphore", 150_000, 4_000_000),
+            l1item("event", 100_000, 3_000_000),
+            l1item("timer", 150_000, 4_000_000),
+            l1item("mpmc", 200_000, 5_000_000),
+            l1item("oneshot", 100_000, 3_000_000),
+            l1item("state_broadcast", 100_000, 3_000_000),
+        ],
+        "C11" => vec![l1item("mpmc", 250_000, 6_000_000), l1item("oneshot", 200_000, 5_000_000), l1item("state_broadcast", 200_000, 5_000_000)],
+        "C12" => vec![l1item("oneshot", 400_000, 12_000_000)],
+        "C13" => vec![l1item("state_broadcast", 400_000, 12_000_000)],
+        "C08" | "C09" | "C10" => vec![l1item("mpmc", 400_000, 12_000_000)],
+        "C15" => vec![l1item("timer", 400_000, 12_000_000)],
+        "C14" => vec![l1item("event", 400_000, 12_000_000)],
         "C07" => vec![PlanItem { layer: "L1", world: "semaphore", quick: 300_000, thorough: 8_000_000, over: vec![("fair", 1)] }],
         _ => vec![],
     }
